@@ -252,8 +252,8 @@ func (e *Engine) runOracle(prop, oracle string, hints map[string]interface{}, re
 // oracleFile maps a property to the file holding its executable oracle.
 func oracleFile(prop string) string {
 	switch prop {
-	case "C01", "C02", "C03", "C12":
-		return "framing.go.txt"
+	case "C01", "C02", "C03", "C12", "C07":
+		return "handler.go.txt"
 	}
 	return prop + ".go.txt"
 }
